@@ -553,6 +553,8 @@ def check_flatten_reshape(ctx, chk):
                 # every live alternative is the array or its reshape
                 lv = [cn.show(x) for x in leaves(ft)]
                 ok_t = bool(lv) and all(arr in x and "zeros(" not in x for x in lv)
+                if ok_t and len(resh) == 1:
+                    ok_t = installs_reshaped(cn, ft, resh[0], arr)
                 chk.ob("C09.from-numpy", "Observation.from_numpy returns an observation whose tensor "
                        "is the given array (reshaped when needed) on every path", ok_t,
                        f"tensor = {final[:200]}", f"{ci.module.path}:{m.node.lineno}")
@@ -566,9 +568,64 @@ def check_flatten_reshape(ctx, chk):
             okn = len(news) >= 1 and all(
                 len(ev.data["args"]) == 2 and cn.show(ev.data["args"][1]) == m.params[3]
                 and arr in cn.show(ev.data["args"][0]) for ev in news)
+            if okn and len(resh) == 1 and len(news) == 1:
+                okn = installs_reshaped(cn, cn.norm(news[0].data["args"][0]), resh[0], arr,
+                                        at=news[0].pc)
             chk.ob("C09.from-numpy", "State.from_numpy builds State(<the array>, host_num_map)", okn,
                    str([[cn.show(a)[:80] for a in ev.data["args"]] for ev in news]),
                    f"{ci.module.path}:{m.node.lineno}")
+
+
+def installs_reshaped(cn, value, resh_ev, arr, at=()):
+    """where the reshape was performed the installed value is its *result* (ndarray.reshape
+    returns a new view, it does not change the array it is called on), elsewhere the array as it
+    came: every alternative of `value` is judged under the conditions that select it; `at` is
+    the path condition of the place where `value` is used"""
+    conds = [c for c in resh_ev.pc if c[0] not in ("fact", "inloop")]
+    res = cn.norm(resh_ev.data["result"])
+
+    def lit(c):
+        """(polarity, positive normal form) of a condition"""
+        pos = True
+        c = cn.norm(c)
+        while c[0] == "not":
+            pos, c = not pos, cn.norm(c[1])
+        if c[0] == "cmp" and c[1] in ("!=", "isnot", "notin"):
+            c = ("cmp", {"!=": "==", "isnot": "is", "notin": "in"}[c[1]], c[2], c[3])
+            pos, c = not pos, cn.norm(c)
+        return pos, c
+
+    def on_path(yes, no):
+        """True / False / None: the alternative lies on / off the reshape path / on both"""
+        state = True
+        for c in conds:
+            pos, xn = lit(c)
+            if (xn in yes) if pos else (xn in no):
+                continue
+            if (xn in no) if pos else (xn in yes):
+                return False
+            state = None
+        return state
+
+    def walk(t, yes, no):
+        if t[0] == "phi":
+            pos, c = lit(t[1])
+            a, b = (t[2], t[3]) if pos else (t[3], t[2])
+            if c in yes:
+                return walk(a, yes, no)
+            if c in no:
+                return walk(b, yes, no)
+            return walk(a, yes | {c}, no) and walk(b, yes, no | {c})
+        where = on_path(yes, no)
+        if where is True:
+            return t == res
+        if where is False:
+            return cn.show(t) == arr
+        return False          # one value for both cases: not the reshaped one where it was needed
+    lits = [lit(c) for c in at if c[0] not in ("fact", "inloop")]
+    yes0 = {c for pos, c in lits if pos}
+    no0 = {c for pos, c in lits if not pos}
+    return bool(walk(value, frozenset(yes0), frozenset(no0)))
 
 
 def check_reinit(ctx, chk):
